@@ -132,7 +132,9 @@ def gen_metadata(rng, depth=0, allow_empty=False):
 
             md = {'deep': inner, 'wide': {'k%03d' % i: i
                                           for i in range(rng.choice([30, 300,
-                                                                    1200]))}}
+                                                                    1200,
+                                                                    2100,
+                                                                    5000]))}}
 
         _LAST_MD[0] = md
         return md
@@ -206,6 +208,9 @@ def gen_content_op(rng, name, scope_enc, pool=None, big=False):
 
         if k < 5:
             op['indent'] = [0, 1, 2, 4, 7, 40, 3, 5][rng.below(8)]
+
+            if rng.chance(0.03) and op['text'].count('\n') < 40:
+                op['indent'] = rng.choice([255, 256, 257, 300, 1000, 5000])
         # else: default indent (4)
 
         if rng.chance(0.5):
@@ -386,7 +391,8 @@ def gen_foreign(rng, pool=None, shuffle=True, blanks=True, crlf=None,
             blank = rng.randint(1, 3)
 
             if rng.chance(0.1):
-                blank = rng.choice([47, 48, 49, 95, 96, 97, 200])
+                blank = rng.choice([47, 48, 49, 95, 96, 97, 200, 1100,
+                                    5000])
 
         sections.append({'blank': blank, 'head': head,
                          'body_hex': body.hex()})
@@ -547,8 +553,8 @@ def gen_foreign(rng, pool=None, shuffle=True, blanks=True, crlf=None,
                 content('...diff')
 
     return {'hnl': 'crlf' if is_crlf else 'lf',
-            'tail_blank': rng.randint(1, 2) if blanks and rng.chance(0.2)
-            else 0,
+            'tail_blank': (rng.choice([1, 2, 1, 2, 1100]) if blanks and
+                           rng.chance(0.2) else 0),
             'sections': sections}
 
 
